@@ -238,7 +238,8 @@ class C04(Prop):
                   "from RFC 9114 §6.2/§7.2, GOAWAY identifier rules included) and there is none where the table has none; the "
                   "rules of server push, which the property's text does not name and h3 does not implement (a push stream, "
                   "CANCEL_PUSH, a MAX_PUSH_ID that goes down), are `may` in that table (reading R-04b) - "
-                  "C04_rfc_table_differs_only_on_push: the RFC-by-the-letter table verdictRfc differs from it only there, and "
+                  "C04_rfc_table_differs_only_on_push: the RFC-by-the-letter table verdictRfc differs from it only there and for the closing of a "
+                  "peer QPACK stream (R-04e, C04_qpack_closure_verdicts), and "
                   "the code's departures from the letter on those three are re-observed on the real code and printed as NOTE "
                   "lines by every run; a stream whose type the table calls unknown, or that ends before its type is known, "
                   "never raises an error and leaves the connection state untouched (C04_unknown_stream, against the table); for "
@@ -286,6 +287,14 @@ class C04(Prop):
                    "(SETTINGS at the end of the setup, the server's GOAWAY before accept answers None), allowed from the STOP_SENDING on; "
                    "whether accept's None waits for write credit for that GOAWAY is not constrained (both accepted until the credit is there); "
                    "stopped own QPACK streams: no opinion (no error, or H3_CLOSED_CRITICAL_STREAM)",
+                   "R-04d: a RESET of the control stream that arrives before the endpoint has looked at the frames in front of it may overtake "
+                   "them (RFC 9000 3.2: undelivered data may be discarded on RESET_STREAM): the frame's own error or H3_CLOSED_CRITICAL_STREAM, "
+                   "nothing else; which of the two the code answers depends on the chunking (NOTE line with counts and the witness pair); a frame "
+                   "the endpoint has looked at before the RESET came keeps exactly its own error (C04_reset_overtakes_only_unseen_frames)",
+                   "R-04e: the closing of the peer's QPACK encoder / decoder stream (RFC 9204 4.2: H3_CLOSED_CRITICAL_STREAM) is not named by the "
+                   "property's text: no error or that error are accepted (C04_qpack_closure_verdicts); the code raises none (NOTE line)",
+                   "frame type 0x41 on the control stream: `may` (R-03b); the oracle has no opinion on the alternative that went past the frame "
+                   "(what follows cannot be read as frames), errors demanded before it stay demanded",
                    "grease on: the control stream header is 28..35 bytes long (random setting id); lines whose control-stream credit stands "
                    "inside that window at an op boundary while SETTINGS are being written have no definite model answer and are not generated",
                    "the application keeps accept()/wait_idle() in flight (the driver is polled when something arrives)",
